@@ -119,9 +119,13 @@ def explore(ctx: Ctx, want_live: bool = True, structure: bool = True) -> List[di
                     before = json.dumps(sim.describe_state(), sort_keys=True, default=str)
                     with rig.Probe(sim, rig.Snap(sim._request_manager), stub=False) as probe:  # the tree changes as handlers run
                         out, resp = probe.call(req)
+                    history.append(list(req))  # live requests change the state too: they are part of the path to later states
                     if True:
                         after = json.dumps(sim.describe_state(), sort_keys=True, default=str)
                         records.append({"kind": "live:" + kind, "scenario": name, "round": rnd, "req": req, "impl": out,
+                                        "where": getattr(probe, "last_where", None) if out.startswith("raised") else None,
+                                        "msg": getattr(probe, "last_msg", None) if out.startswith("raised") else None,
+                                        "history": list(history[:-1]),
                                         "status": getattr(resp, "status", None) if not isinstance(resp, Exception) else "raised",
                                         "resp_type": type(resp).__name__, "unchanged": before == after, "exists": exists})
     model = run_driver(EXE, lines)
@@ -155,7 +159,9 @@ def judge(ctx: Ctx, records: List[dict]):
             ctx.case({"k": k, "req": r["req"], "scenario": r["scenario"], "round": r["round"]}, r["impl"].split()[0] != "reached" or True)
             if r["status"] == "raised":
                 ctx.violation({"kind": "request-raises", "exc": r["impl"].split()[1], "action": k.split(":", 2)[2], "phase": "handler"},
-                              f"request {r['req']} raised {r['impl']} instead of answering", {"scenario": r["scenario"], "req": r["req"], "observed": r["impl"]})
+                              f"request {r['req']} raised {r['impl']} instead of answering ({r.get('msg')}) at {r.get('where')}",
+                              {"scenario": r["scenario"], "req": r["req"], "observed": r["impl"], "where": r.get("where"), "msg": r.get("msg"),
+                               "history": r.get("history")})
             elif r["status"] not in DOCUMENTED:
                 ctx.violation({"kind": "undocumented-status", "action": k.split(":", 2)[2], "status": str(r["status"])},
                               f"request {r['req']} answered {r['resp_type']} / status {r['status']!r}", {"scenario": r["scenario"], "req": r["req"]})
@@ -203,6 +209,17 @@ def replay(rec: dict) -> bool:
     cfg = scen.load_cfg(scen.shipped()[rp["scenario"]])
     game = scen.make_game(cfg)
     sim = game.simulation
+    t = 1
+    for q in rp.get("history") or []:  # the perturbation that led to the state (API-level steps are tagged "api:…")
+        try:
+            if q and q[0] == "api:uninstall":
+                next(n for n in sim.network.nodes.values() if n.config.hostname == q[1]).software_manager.uninstall(q[2])
+            elif q and q[0] == "tick":
+                sim.pre_timestep(t); sim.apply_timestep(t); t += 1
+            else:
+                sim.apply_request(q)
+        except Exception:
+            pass
     snap = rig.Snap(sim._request_manager)
     with rig.Probe(sim, snap, stub=False) as probe:
         out, resp = probe.call(rp["req"])
@@ -218,9 +235,15 @@ def corpus(ctx: Ctx):
     games = {}
     for f in sorted((VERIF / "corpus" / "C05").glob("*.json")):
         w = json.loads(f.read_text())
-        if w["scenario"] not in games:
-            games[w["scenario"]] = scen.make_game(scen.load_cfg(scen.shipped()[w["scenario"]]))
-        sim = games[w["scenario"]].simulation
+        if w.get("pre"):  # witnesses that need a prepared state get a game of their own
+            g = scen.make_game(scen.load_cfg(scen.shipped()[w["scenario"]]))
+            for q in w["pre"]:
+                g.simulation.apply_request(q)
+            sim = g.simulation
+        else:
+            if w["scenario"] not in games:
+                games[w["scenario"]] = scen.make_game(scen.load_cfg(scen.shipped()[w["scenario"]]))
+            sim = games[w["scenario"]].simulation
         with rig.Probe(sim, rig.Snap(sim._request_manager), stub=False) as probe:
             out, resp = probe.call(w["req"])
         ctx.count("corpus")
